@@ -74,7 +74,8 @@ def main(ctx):
               "unsub_inside_sends_unsubscribe", "handler_with_details_before_plain",
               "decorated_handler_invoked", "user_error_reported", "protocol_error_raised",
               "shape:none", "shape:args", "shape:kwargs", "shape:both",
-              "unsub_in_subscribe_callback", "callee_variant_transitions", "handler_kinds_events"):
+              "unsub_in_subscribe_callback", "callee_variant_transitions", "handler_kinds_events",
+              "pattern_subscription_events"):
         ctx.require(n)
 
 
@@ -301,6 +302,15 @@ class World:
             @wamp.subscribe(TOPICS[0])
             def on_c(self_, *a, **kw):
                 return world.on_invoke(h0 + 2, a, kw, obj=self_)
+
+            # the object is a callee, too: subscribe(obj) must not touch its procedures
+            @wamp.register("com.obj.proc")
+            def a_proc(self_, *a, **kw):
+                return world.on_invoke(-1, a, kw, obj=self_)
+
+            @wamp.register("com.obj.zproc")
+            def z_proc(self_, *a, **kw):
+                return world.on_invoke(-1, a, kw, obj=self_)
         obj = Obj()
         self.has_obj = True
         exp = []
@@ -778,6 +788,29 @@ def _job_kinds(a):
                 bad("handler-body-not-run" if missing else "handler-order",
                     "EVENT shape %s: handlers (kind, check_types, details) %s did not run / ran differently; "
                     "got %r expected %r" % (shape, missing[:4], got[:4], want[:4]))
+    # ---- pattern-based subscriptions: the router names the concrete topic in EVENT.Details.topic;
+    # that - not the subscribed pattern - is what a handler that asked for details sees
+    for match, pattern, published in (("prefix", "com.pat", "com.pat.x.y"), ("wildcard", "com..upd", "com.dev7.upd"),
+                                      (None, "com.exact.t", None)):
+        l1 = H.L1(observers=False).join()
+        s = l1.session
+        seen_topics = []
+
+        def h(*a_, details=None, **k_):
+            seen_topics.append(getattr(details, "topic", "<no details>"))
+        opts = T.SubscribeOptions(match=match, details_arg="details") if match else T.SubscribeOptions(details_arg="details")
+        r = l1.api(s.subscribe, h, pattern, options=opts)
+        l1.settle()
+        req = [m for m in l1.transport.sent if isinstance(m, M.Subscribe)][-1].request
+        l1.deliver(M.Subscribed(req, 88))
+        exc = l1.deliver(M.Event(88, 901, args=[1], topic=published))
+        l1.settle()
+        evals += 1
+        stats["pattern_subscription_events"] += 1
+        want = [published or pattern]
+        if exc is not None or seen_topics != want:
+            bad("event-details-topic", "subscription %r (match=%s), EVENT with Details.topic=%r: handler saw "
+                "details.topic %r, expected %r (raised %r)" % (pattern, match, published, seen_topics, want, exc))
     return {"evals": evals, "viol": viol, "stats": dict(stats), "samples": [{"kind": "handler-kinds", "events": evals}]}
 
 
